@@ -1675,6 +1675,10 @@ def _extend_children(children, item, get_handler):
     try:  # dict or obj-like
         keys = get_handler('keys', item)
         get = get_handler('get', item)
+        if keys is _ObjStyleKeys.get_keys and isinstance(item, (list, tuple, set, frozenset)):
+            # an instance of a list/tuple/set subclass has a __dict__, but
+            # its children are its items, not its attributes
+            raise UnregisteredTarget('keys', type(item), OrderedDict(), None)
     except UnregisteredTarget:
         try:
             iterate = get_handler('iterate', item)
